@@ -41,12 +41,14 @@ type c19Case struct {
 	Ops   []c19Push `json:"ops"`
 }
 
-func newDedup() *deduplicator.Deduplicator {
+// newDedup returns a deduplicator and the function that releases its cache (ristretto keeps goroutines and buffers
+// alive until it is closed: thousands of cases per process would otherwise add up to gigabytes).
+func newDedup() (*deduplicator.Deduplicator, func()) {
 	c, err := ristretto.NewCache(&ristretto.Config{NumCounters: 10000, MaxCost: 10 * (1 << 20), BufferItems: 64})
 	if err != nil {
 		panic(err)
 	}
-	return deduplicator.New(cache.New[bool](store.NewRistretto(c)), zap.NewNop())
+	return deduplicator.New(cache.New[bool](store.NewRistretto(c)), zap.NewNop()), c.Close
 }
 
 func setKeys(idx, size int) []int {
@@ -73,7 +75,9 @@ func runC19(c c19Case) (*vh.Violation, vh.Outcome) {
 	gsC := make(chan *common.GuardianSet, 1000)
 	gss := guardiansets.NewGuardianSets(sets, "/nonexistent/verif-no-such-node.ipc", zap.NewNop(), time.Hour, ethcommon.Address{}, gsC)
 	queue := make(chan *Message, c.Cap)
-	cons := NewVAAGossipConsumer(gss, newDedup(), queue, zap.NewNop())
+	dd, closeDedup := newDedup()
+	defer closeDedup()
+	cons := NewVAAGossipConsumer(gss, dd, queue, zap.NewNop())
 	ctx, cancel := context.WithTimeout(context.Background(), 20*time.Second)
 	defer cancel()
 	refused := map[string]bool{} // ids whose last push failed only because the queue was full
